@@ -71,6 +71,31 @@ def gen_domain(r, shape=None):
     return '.'.join(labs)
 
 
+def gen_long_domain(r, idn=True):
+    """A legal name close to the limits: labels of up to 63 octets and up to 253 in all in A-label form; written as U-labels
+    its UTF-8 text is much longer than that."""
+    labs = []
+    total = 0
+    while len(labs) < 5:
+        if idn:
+            alpha = r.choice(IDN_ALPHABETS)
+            n = r.randint(12, 34)
+            u = ''.join(r.choice(alpha) for _ in range(n))
+            while len(expected_alabel(u)) > 63:
+                u = u[:-1]
+        else:
+            u = ''.join(r.choice(ASCII_L + '0123456789') for _ in range(r.choice([63, 63, 62, 40])))
+        a = len(expected_alabel(u))
+        if total + a + (1 if labs else 0) > 253:
+            rest = 253 - total - (1 if labs else 0)
+            if rest >= 1 and not idn:
+                labs.append(u[:rest])
+            break
+        labs.append(u)
+        total += a + (1 if len(labs) > 1 else 0)
+    return '.'.join(labs)
+
+
 def free_port():
     s = socket.socket()
     s.bind(('127.0.0.1', 0))
@@ -81,7 +106,7 @@ def free_port():
 
 class Tacd:
     def __init__(self, d, listen, domain, ext, key_type=None, digest=None, domain_via='flag', ext_via='flag',
-                 name='tacd'):
+                 name='tacd', nofile=None):
         self.dir = d
         self.listen = listen
         cmd = [C.BIN['tacd'], '-f', '--no-pid-file', '--log-stderr', '--log-level', 'debug', '--listen', listen]
@@ -108,8 +133,12 @@ class Tacd:
             cmd += ['--crt-digest', digest]
         self.errpath = '%s/%s.stderr' % (d, name)
         self.err = open(self.errpath, 'wb')
+        def limits():
+            if nofile:
+                import resource
+                resource.setrlimit(resource.RLIMIT_NOFILE, (nofile, nofile))
         self.p = subprocess.Popen(cmd, stdin=subprocess.PIPE, stdout=subprocess.DEVNULL, stderr=self.err,
-                                  env=dict(os.environ, RUST_BACKTRACE='0'))
+                                  env=dict(os.environ, RUST_BACKTRACE='0'), preexec_fn=limits if nofile else None)
         try:
             if stdin_data:
                 self.p.stdin.write(stdin_data)
